@@ -458,6 +458,12 @@ def parse_extra(prop, tier, total, bads, design):
             raise
 
 
+def math_jobs(tier):
+    jobs = [dict(src="h_math.cpp", cc="gcc", tag="math-gcc-%d" % k, defines=["MATH_SET=%d" % k]) for k in range(6)]
+    jobs.append(dict(src="h_math.cpp", cc="clang", tag="math-clang-%d" % (vlib.seed() % 3), defines=["MATH_SET=%d" % (vlib.seed() % 3)]))
+    return jobs
+
+
 def wide_jobs(tier):
     sets = [0, 1, 2, 3] if tier == "quick" else [0, 1, 2, 3, 4]
     jobs = [dict(src="h_wide.cpp", cc="gcc", tag="wide-gcc-%d" % k, defines=["WIDE_SET=%d" % k]) for k in sets]
@@ -466,6 +472,7 @@ def wide_jobs(tier):
 
 
 FAMILIES = {
+    "math": dict(jobs=math_jobs, attr=lambda kind, op, tag, diag: ["C20"], record_timeout=1800),
     "parse": dict(jobs=parse_jobs, attr=lambda kind, op, tag, diag: ["C15"]),
     "native": dict(jobs=native_jobs, attr=lambda kind, op, tag, diag: ["C12"]),
     "text": dict(jobs=text_jobs, attr=text_attr, record_timeout=1800),
@@ -651,6 +658,20 @@ CHECKS = {
                "class template argument deduction is not judged: this version of the library has no deduction guides for "
                "constants (scaled_integer{v} is the default specialisation's converting constructor); tokens whose value does "
                "not fit the run-time target type are skipped"), extra=parse_extra),
+    "C20": chk(["math"], [],
+               "events = cnl::exp2(x) for scaled_integer<Rep, power<E>>, Rep in {int8, uint8} (all values), {int16, uint16} "
+               "(every 7th value quick / all thorough), {int32, uint32} (every 2^22-th value quick / 2^16-th thorough + TLC "
+               "boundary sets + random), every exponent E = -1 .. -(digits-1); std::numbers constants (e, log2e, log10e, pi, "
+               "inv_pi, inv_sqrtpi, ln2, ln10, sqrt2, sqrt3, inv_sqrt3, egamma, phi) for every (Rep, E) with 8..64-bit reps that "
+               "can hold the integer part; non-trivial = non-integral x / every constant",
+               "TLA+ spec (SemMath) evaluated by TLC on every recorded event: 2^frac(x) is enclosed by products of table "
+               "entries L_i <= 2^(2^-i) * 2^80 <= U_i which TLC certifies itself at start-up (ASSUME: L_(i+1)^2 <= L_i 2^80, "
+               "U_(i+1)^2 >= U_i 2^80); constants from a literal table floor(C 2^80) (sympy-generated, re-checked by setup; the "
+               "algebraic ones certified by ASSUME)",
+               "the logged exp2 representation must be within 1 of some integer in the enclosure of floor(2^x / 2^E) (exact "
+               "for integral x when representable); each constant within one unit of the last place.",
+               "the enclosure is ~2^-70 wide, so on a vanishing set of inputs the check errs towards acceptance; trusted: the "
+               "13 literal constants (cross-checked against sympy at setup)"),
     "C16": chk(["fraction"], [],
                "events = +,-,*,/ , unary -/+, the six comparisons, reduce, canonical, std::hash on pairs (n,d)/(k*n,k*d), and "
                "explicit conversion to float/double on cnl::fraction<T>, T = int8..int64; unary operations over every 8-bit "
